@@ -54,6 +54,9 @@ class TLst(TV):
 
 
 class TDct(TV):
+    open = False          # some entries are not known (a store under an unknown key, an update that is not followed)
+    unordered = False     # the insertion order differs between the paths that were joined
+
     def __init__(self, d, src=None):
         self.d = dict(d)
         self.src = src  # label prefix: unknown constant keys produce label f"{src}:{key}"
@@ -180,7 +183,12 @@ def join(a, b):
         items += (a.items[n:] or b.items[n:])
         return TLst(items, join(a.extra, b.extra))
     if isinstance(a, TDct) and isinstance(b, TDct):
-        return TDct({k: join(a.d.get(k), b.d.get(k)) for k in set(a.d) | set(b.d)}, a.src or b.src)
+        keys = list(a.d) + [k for k in b.d if k not in a.d]
+        r = TDct({k: join(a.d.get(k), b.d.get(k)) for k in keys}, a.src or b.src)
+        r.open = getattr(a, "open", False) or getattr(b, "open", False)
+        # different insertion orders on the two paths: positional reads (.values(), iteration) are not decided any more
+        r.unordered = getattr(a, "unordered", False) or getattr(b, "unordered", False) or [k for k in a.d if k in b.d] != [k for k in b.d if k in a.d]
+        return r
     if isinstance(a, TObj) and isinstance(b, TObj):
         return TObj({k: join(a.attrs.get(k), b.attrs.get(k)) for k in set(a.attrs) | set(b.attrs)}, a.cls)
     if isinstance(a, (TFn, TExt, TMod, TCls)):
@@ -256,6 +264,11 @@ class TaintInterp:
             idx = self.ev(t.slice, fr) if not isinstance(t.slice, (ast.Slice, ast.Tuple)) else None
             if isinstance(base, TDct) and isinstance(idx, TC):
                 base.d[idx.v] = v
+            elif isinstance(base, TDct):
+                self.unknown.append((t, f"store under a key that is not known: `{ast.unparse(t)[:40]}`"))
+                for k_ in list(base.d):
+                    base.d[k_] = T(labels(base.d[k_]) | labels(v))
+                base.open = True
             elif isinstance(base, TLst):
                 if isinstance(idx, TC) and isinstance(idx.v, int) and 0 <= idx.v < len(base.items):
                     base.items[idx.v] = v
@@ -456,10 +469,24 @@ class TaintInterp:
             return TLst([self.ev(x, fr) for x in e.elts])
         if isinstance(e, ast.Dict):
             d = {}
+            open_ = False
             for k, v in zip(e.keys, e.values):
                 kk = self.ev(k, fr) if k is not None else None
+                if k is None:
+                    sub = self.ev(v, fr)
+                    if isinstance(sub, TDct):
+                        d.update(sub.d)
+                        open_ = open_ or getattr(sub, "open", False)
+                    else:
+                        d["?"] = join(d.get("?"), T(labels(sub)))
+                        open_ = True
+                    continue
+                if not isinstance(kk, TC):
+                    open_ = True
                 d[kk.v if isinstance(kk, TC) else "?"] = self.ev(v, fr)
-            return TDct(d)
+            r_ = TDct(d)
+            r_.open = open_
+            return r_
         if isinstance(e, ast.BinOp):
             a, b = self.ev(e.left, fr), self.ev(e.right, fr)
             if isinstance(a, TC) and isinstance(b, TC) and isinstance(a.v, (int, float)) and isinstance(b.v, (int, float)):
@@ -653,6 +680,10 @@ class TaintInterp:
             if k.arg is None:
                 if isinstance(v, TDct):
                     kw.update(v.d)
+                    if getattr(v, "open", False):
+                        self.unknown.append((e, f"`**{ast.unparse(k.value)[:40]}`: a dictionary some of whose entries are not known"))
+                else:
+                    self.unknown.append((e, f"`**{ast.unparse(k.value)[:40]}`: the keywords handed over are not known"))
             else:
                 kw[k.arg] = v
         return self._call(f, args, kw, e, fr)
@@ -728,14 +759,55 @@ class TaintInterp:
                         return TC(None)
                     if name == "copy":
                         return TLst(list(o.items), o.extra)
+                    if name in ("extend", "insert", "remove", "pop", "sort", "reverse", "clear"):
+                        # the positions in the list are no longer known
+                        if name == "extend" and args and isinstance(args[0], (TLst, TTup)) and getattr(args[0], "extra", None) is None and o.extra is None and not self.generic:
+                            o.items.extend(args[0].items)
+                            return TC(None)
+                        self.unknown.append((node, f"`.{name}()` on a list whose positions matter"))
+                        allv = labels(o)
+                        for a_ in args:
+                            allv = allv | labels(a_)
+                        o.extra = T(allv)
+                        return T(allv)
                     return T(labels(o))
                 if isinstance(o, TDct):
                     if name in ("get", "pop", "setdefault") and args and isinstance(args[0], TC):
                         if args[0].v in o.d:
-                            return o.d[args[0].v]
+                            r_ = o.d[args[0].v]
+                            if name == "pop" and not self.generic:
+                                del o.d[args[0].v]          # a later re-insertion goes to the end: the order of .values() changes
+                            return r_
                         if o.src:
                             return T({f"{o.src}:{args[0].v}"})
+                        if name == "setdefault" and len(args) > 1:
+                            o.d[args[0].v] = args[1]
                         return args[1] if len(args) > 1 else TC(None)
+                    if name == "update":
+                        pairs = None
+                        if not args:
+                            pairs = []
+                        elif isinstance(args[0], TDct) and not getattr(args[0], "open", False):
+                            pairs = list(args[0].d.items())
+                        elif isinstance(args[0], (TLst, TTup)) and getattr(args[0], "extra", None) is None \
+                                and all(isinstance(x, TTup) and len(x.items) == 2 and isinstance(x.items[0], TC) for x in args[0].items):
+                            pairs = [(x.items[0].v, x.items[1]) for x in args[0].items]
+                        if pairs is not None:
+                            for k_, v_ in pairs + list(kw.items()):
+                                o.d[k_] = v_
+                            return TC(None)
+                    if name in ("update", "clear", "popitem", "pop", "setdefault", "__setitem__", "__delitem__"):
+                        # an effect on the dictionary that is not followed: every entry may have been replaced
+                        self.unknown.append((node, f"`.{name}(...)` on a dictionary with arguments that are not known"))
+                        allv = labels(o)
+                        for a_ in list(args) + list(kw.values()):
+                            allv = allv | labels(a_)
+                        for k_ in list(o.d):
+                            o.d[k_] = T(labels(o.d[k_]) | allv)
+                        o.open = True
+                        return T(allv)
+                    if name in ("values", "items", "keys") and (getattr(o, "open", False) or getattr(o, "unordered", False)):
+                        self.unknown.append((node, f"`.{name}()` of a dictionary whose entries / order are not known"))
                     if name == "values":
                         return TLst(list(o.d.values()))
                     if name == "items":
@@ -792,6 +864,10 @@ class TaintInterp:
             if n in ("len", "range", "tqdm.trange", "print", "int", "str", "type", "enumerate", "zip", "tqdm.tqdm", "list", "tuple", "float", "abs", "max", "min", "sum", "set", "sorted") or True:
                 if n in ("tqdm.tqdm", "list", "tuple") and len(args) == 1 and isinstance(args[0], (TLst, TTup)):
                     return args[0]
+                if n in ("list", "tuple", "sorted", "iter") and len(args) == 1 and isinstance(args[0], TDct):
+                    if getattr(args[0], "open", False) or getattr(args[0], "unordered", False) or n == "sorted":
+                        self.unknown.append((node, f"`{n}()` of a dictionary whose keys / order are not known"))
+                    return TLst([TC(k) for k in args[0].d])
                 if n.startswith("logging") or n.endswith((".debug", ".info", ".warning", ".error")):
                     return TC(None)
                 if n == "numpy.where" and len(args) == 3:
